@@ -86,7 +86,9 @@ def main():
     vals_pool = [5.0, -2.5, 0.75]
     rac.section("setters", f"managers built by every sequence of <= {L} expression definitions (of {len(alpha)}) on dict-in-dict, "
                 "list-in-dict and attribute containers; every non-empty subset of <= 3 undefined locations as arguments; generated "
-                "setter vs set_value per argument on a twin; source lists each triggered task once, producers first; "
+                "setter vs set_value per argument on a twin; source lists each triggered task once, producers first; then another manager with "
+                "the same history and container label generates and uses its own setter and the first setter is used again (still == assigning "
+                "through its own manager; the other manager's data untouched); "
                 "non-trivial = at least one task is triggered", f"definitions<={L}, arguments<=3")
     for n in range(1, L + 1):
         for ops in itertools.permutations(alpha, n):
@@ -142,6 +144,38 @@ def main():
                 msg = check_text(wa, src, refs)
                 if msg:
                     rac.fail(key, f"C13 {key}: source of the setter: {msg}\n{src}", scr, "Manager.mk_fun")
+                    continue
+                # a THIRD manager with the same history (hence the same container label) generates and uses its own setter; the first setter,
+                # used again, still acts on the first manager's containers (== assigning through that manager) and leaves the third one's alone
+                vals_c, vals2 = [v + 1.0 for v in vals], [v * 0.5 + 0.125 for v in vals]
+                scr3 = (f"SRC = {G.history_script(list(ops))!r}\nimport copy\ndef build():\n    env = {{}}\n    exec(SRC, env)\n    return env\n"
+                        f"A, B, C = build(), build(), build()\nargs = {[rs(l) for l in sub]!r}\nnames = ['x%d' % i for i in range(len(args))]\n"
+                        "mk = lambda e: e['m'].gen_fun('setter', **{n: eval(a, e) for n, a in zip(names, args)})\n"
+                        f"fa = mk(A); fa(*{vals!r})\nfc = mk(C); fc(*{vals_c!r})\nc0 = copy.deepcopy(C['d'])\nfa(*{vals2!r})\n"
+                        f"for a, v in zip(args, {vals2!r}):\n    exec(a + ' = ' + repr(v), B)\n"
+                        "assert A['d'] == B['d'], ('first setter used again', A['d'], 'through the manager', B['d'])\nassert C['d'] == c0, ('the other manager\\'s data changed', C['d'], c0)\n")
+                try:
+                    wc = G.World()
+                    for o in ops:
+                        wc.apply(o)
+                    func = wc.m.gen_fun("setter", **dict(zip(names, [wc.ref(l) for l in sub])))
+                    func(*vals_c)
+                    c0 = wc.actual()
+                    fun(*vals2)
+                    for l, v in zip(sub, vals2):
+                        wb.apply(("val", l, v))
+                except ZeroDivisionError:
+                    continue
+                except Exception as ex:     # noqa
+                    rac.fail(key + " twice", f"C13 {key}, setter used again after another manager generated its own: {type(ex).__name__}: {ex}", scr3, "Manager.gen_fun")
+                    continue
+                a, b, c1 = wa.actual(), wb.actual(), wc.actual()
+                bad = [(G.locstr(l), a[l], b[l]) for l in G.LOCS if not G.close(a[l], b[l])]
+                badc = [(G.locstr(l), c0[l], c1[l]) for l in G.LOCS if not G.close(c0[l], c1[l])]
+                rac.case((ops, sub, "again"), nontrivial=ntasks > 0, sample=dict(history=hist, args=[G.locstr(l) for l in sub], again=True))
+                if bad or badc:
+                    rac.fail(key + " twice", f"C13 {key}: another manager with the same container label generated its own setter; the first setter, used again, "
+                             f"leaves {bad[:3]} (setter value, through the manager)" + (f" and changed the other manager's data {badc[:3]}" if badc else ""), scr3, "Manager.gen_fun")
     rac.section("containers", "arguments inside nested containers whose enclosing container is read as a whole by another task "
                 "(function of a list / dict), repeated generation after a definition was removed", "9 crafted argument sets x fresh / regenerated")
     CR = '''
